@@ -1,4 +1,5 @@
 import UralModel.Lemmas.C03
+import UralModel.Lemmas.C04Order
 /-!
 # C03, second half: `fingerprint_url` from `normalize_url`
 
@@ -10,7 +11,7 @@ for (b) is that the inner call is determined by `normalize_url(u)` (default opti
 * query: the items `fingerprint_url` keeps are the kept items of `normalize_url` with the `gl`/`hl`
   items removed (`filter_absorb`: every item the default filter strips, the fingerprint filter
   strips), sorted again — a function of `normalize_url`'s query once the sort depends only on the
-  multiset of items (`SortHyp`, proved with C04's permutation lemma);
+  multiset of items (`SortHyp`, which holds: C04's `sortQsl_eq_of_perm`);
 * path, fragment: here `lowercase` acts before the case-sensitive steps (index file test), and
   the theorem of this file is about inputs on which it has nothing to do (`LowerInput`: the URL
   and what its escapes decode to are lower-case already).  Beyond that class (b) is FALSE for the
@@ -129,19 +130,8 @@ theorem strip_lang_df_irrelevant (amp : Bool) (df : Option (List String)) (it : 
 total order whose ties are equal items): C04's `norm_query_permutation` -/
 def SortHyp : Prop := ∀ xs ys : List QItem, xs.Perm ys → sortQsl xs = sortQsl ys
 
-theorem insertItem_perm (x : QItem) (ys : List QItem) : (insertItem x ys).Perm (x :: ys) := by
-  induction ys with
-  | nil => exact List.Perm.refl _
-  | cons y ys ih =>
-    unfold insertItem
-    split
-    · exact List.Perm.refl _
-    · exact (List.Perm.cons y ih).trans (List.Perm.swap x y ys)
-
-theorem sortQsl_perm (xs : List QItem) : (sortQsl xs).Perm xs := by
-  induction xs with
-  | nil => exact List.Perm.refl _
-  | cons x xs ih => exact (insertItem_perm x (sortQsl xs)).trans (List.Perm.cons x ih)
+/-- it does: `qsl_sort_key` is a total order on items (`Lemmas/C04Order.lean`) -/
+theorem sortHyp : SortHyp := fun _ _ h => sortQsl_eq_of_perm h
 
 /-- filtering then sorting = filtering the sorted list then sorting -/
 theorem sort_filter_sort (hS : SortHyp) (f : QItem → Bool) (l : List QItem) :
